@@ -70,7 +70,8 @@ class CallMixin:
     def call_value(self, fv, args, kwargs, node):
         fv = self.resolve(fv)
         if isinstance(fv, FuncV):
-            return self.call_function(fv.fi, args, kwargs, self_obj=fv.self_obj, node=node, cls_obj=fv.cls_obj)
+            return self.call_function(fv.fi, args, kwargs, self_obj=fv.self_obj, node=node, cls_obj=fv.cls_obj,
+                                      closure=getattr(fv, 'closure', None))
         if isinstance(fv, ClassV):
             return self.instantiate(fv.ci, args, kwargs, node)
         if isinstance(fv, ExtV):
